@@ -160,17 +160,27 @@ def cmd_check(args):
 
 
 def cmd_table():
-    print("| seeded change | property | what it breaks | confirmed | caught by | missed by |")
+    first = json.load(open(os.path.join(SEEDED, "FIRST_RUN.json")))["first_run"] if os.path.exists(os.path.join(SEEDED, "FIRST_RUN.json")) else {}
+    print("| id | file | seeded change | first run | now caught by | how the check reports it |")
     print("|---|---|---|---|---|---|")
     for sid in ids_or_all([]):
         d = os.path.join(SEEDED, sid)
+        if not os.path.exists(os.path.join(d, "meta.json")):
+            continue
         meta = json.load(open(os.path.join(d, "meta.json")))
         r = load_result(sid)
-        caught = [k for k, v in r.get("checks", {}).items() if v["rc"] == 1 and v["violations"]]
-        missed = [k for k, v in r.get("checks", {}).items() if not (v["rc"] == 1 and v["violations"])]
-        summ = re.sub(r"\s+", " ", meta.get("summary", ""))[:160]
-        print("| %s | %s | %s | %s | %s | %s |" % (sid, meta.get("property", ""), summ, "yes" if r.get("confirm", {}).get("ok") else "no",
-                                              ", ".join(caught) or "-", ", ".join(missed) or "-"))
+        files = meta.get("files", [])
+        files = ", ".join(os.path.basename(f) for f in files) if isinstance(files, list) else str(files)
+        summ = re.sub(r"\s+", " ", meta.get("summary", ""))
+        summ = (summ[:230] + "…") if len(summ) > 230 else summ
+        chk = {k: v for k, v in r.get("checks", {}).items() if "@" not in k}
+        caught = sorted(set(k.split(":")[0] for k, v in chk.items() if v["rc"] == 1 and v["violations"] and not all("model-build" in x for x in v["violations"])))
+        sample = ""
+        for k, v in chk.items():
+            if v["rc"] == 1 and v.get("sample"):
+                sample = re.sub(r"\s+", " ", v["sample"][0].replace("judge: ", ""))[:110]
+                break
+        print("| %s | %s | %s | %s | %s | %s |" % (sid, files, summ.replace("|", "/"), first.get(sid, "?"), ", ".join(caught) or "—", sample.replace("|", "/")))
 
 
 if __name__ == "__main__":
